@@ -290,9 +290,11 @@ func runC03(cw *caseWriter, tier string, seed uint64) {
 	if tier == "quick" {
 		runScenarios(cw, 1, seed*100000, 100, 12)
 		runScenarios(cw, 2, seed*100000, 40, 12)
+		runScenarios(cw, 13, seed*100000, 40, 12)
 	} else {
 		runScenarios(cw, 1, seed*100000, 2500, 12)
 		runScenarios(cw, 2, seed*100000, 600, 12)
+		runScenarios(cw, 13, seed*100000, 800, 12)
 	}
 }
 
